@@ -2,6 +2,7 @@ package main
 
 import (
 	"bytes"
+	"encoding/json"
 	"fmt"
 	"os"
 	"path/filepath"
@@ -557,8 +558,23 @@ func liveExecute(lc *liveCase, timeout time.Duration) *liveResult {
 			if len(evs) > 15 {
 				evs = evs[len(evs)-15:]
 			}
+			// a staged companion that is no single JSON value: two Receives of one file wrote it at the same time
+			// (finding S21: the per-file lock entry is dropped while a request waits on it); every later part of the
+			// file is refused, the sender sends it again for ever
+			kind := "stuck"
+			filepath.Walk(rig.stageDir, func(p string, info os.FileInfo, err error) error {
+				if err == nil && !info.IsDir() && strings.HasSuffix(p, ".cmp") {
+					if b, rerr := os.ReadFile(p); rerr == nil {
+						var v map[string]any
+						if json.Unmarshal(b, &v) != nil {
+							kind = "stuck-corrupt-companion (" + filepath.Base(p) + " holds no single JSON value)"
+						}
+					}
+				}
+				return nil
+			})
 			what += " | last events: " + strings.Join(evs, "; ") + " | sender goroutines: " + strings.ReplaceAll(stopBrokerStacks(), "\n", " / ")
-			res.failures = append(res.failures, fmt.Sprintf("stuck: after %.1f s (fault plan finite, sources unchanged) %s", res.dur.Seconds(), what))
+			res.failures = append(res.failures, fmt.Sprintf("%s: after %.1f s (fault plan finite, sources unchanged) %s", kind, res.dur.Seconds(), what))
 		}
 	}
 	events := rig.takeEvents()
